@@ -5,7 +5,9 @@ import (
 	"fmt"
 	"os"
 	"path/filepath"
+	"regexp"
 	"sort"
+	"strconv"
 	"strings"
 
 	"verifharness/c17"
@@ -42,6 +44,10 @@ func obsTags(o TextObs, texts []c17.PkgText) []string {
 			tags = append(tags, "C16-F3:role-outside-workspace-panic") // fixed 7ddd85b13: a regression
 		case o.Stage == "panic" && strings.Contains(o.Err, "nil pointer dereference") && hasViewOfJob(texts):
 			tags = append(tags, "C16-F4:view-result-of-job-nil-dereference") // fixed a6c74ddce: a regression
+		case o.Stage == "died" && strings.Contains(o.Err, "stack") && strings.Contains(o.Err, "fillTable"):
+			tags = append(tags, "C16-F11:system-table-on-inherits-cycle-stack-overflow")
+		case o.Stage == "died" && strings.Contains(o.Err, "stack") && strings.Contains(o.Err, "participle") && !strings.Contains(o.Err, "voedger/pkg"):
+			tags = append(tags, "C16-F17:deep-nesting-stack-overflow-in-parser")
 		case o.Stage == "died" && strings.Contains(o.Err, "stack") && strings.Contains(o.Err, "parser.lookupField") && hasFieldSetCycle(texts):
 			tags = append(tags, "C16-F9:field-set-cycle-stack-overflow-in-field-lookup") // fixed 87e6dec40: a regression
 		case o.Stage == "died" && strings.Contains(o.Err, "stack") && hasFieldSetCycle(texts):
@@ -62,6 +68,16 @@ func obsTags(o TextObs, texts []c17.PkgText) []string {
 			tags = append(tags, "C16-F6:view-without-partition-key-refused-by-build") // fixed 55541a167: a regression
 		case strings.Contains(o.Err, "ACL filter") && strings.Contains(o.Err, "has no matches"):
 			tags = append(tags, "C16-F7:grant-matching-nothing-refused-by-build") // fixed 510061369: a regression
+		case strings.Contains(o.Err, "parameter type") && strings.Contains(o.Err, "should be") || strings.Contains(o.Err, "result type") && strings.Contains(o.Err, "should be"):
+			tags = append(tags, "C16-F12:function-parameter-kind-refused-by-build")
+		case strings.Contains(o.Err, "expected exactly 5 fields") && strings.Contains(o.Err, "cron schedule"):
+			tags = append(tags, "C16-F13:job-cron-with-seconds-refused-by-build")
+		case strings.Contains(o.Err, "Limit") && strings.Contains(o.Err, "has no matches") && strings.Contains(o.Err, "TAGS("):
+			tags = append(tags, "C16-F14:limit-over-empty-tag-refused-by-build")
+		case sourceHas(texts, "ALTER WORKSPACE") && (strings.Contains(o.Err, "has no matches in Workspace") || strings.Contains(o.Err, "container") && strings.Contains(o.Err, "type") && strings.Contains(o.Err, "not found")):
+			tags = append(tags, "C16-F15:alter-workspace-names-leak-refused-by-build")
+		case sourceHasRe(texts, importAliasRe) && strings.Contains(o.Err, "invalid or unknown") && strings.Contains(o.Err, "type") && strings.Contains(o.Err, "not found"):
+			tags = append(tags, "C16-F16:import-alias-parameter-refused-by-build")
 		default:
 			tags = append(tags, "build-failed-after-nil-error")
 		}
@@ -69,12 +85,29 @@ func obsTags(o TextObs, texts []c17.PkgText) []string {
 	if !o.Positioned {
 		if builderRefusal(o) {
 			tags = append(tags, "C16-F1b:builder-refusal-without-position")
+		} else if o.Stage == "build" && len(o.Unpositioned) == 1 && unpositionedRefusal(o.Unpositioned[0]) {
+			// four more refusals of the definition builder that the parser could have stated with a position
+			tags = append(tags, "C16-F19:builder-refusal-without-position-2")
 		} else if o.Stage == "build" && len(o.Unpositioned) == 1 && o.Unpositioned[0] == "incorrect nested table kind" {
 			// a field `name RecordTable` of another family than the containing table
 			tags = append(tags, "C16-F10:wrong-family-container-error-without-position") // fixed 70f4f5752: a regression
 		} else {
 			tags = append(tags, "error-without-position")
 		}
+	}
+	// C16-F5b: a "circular reference in field sets" although no TYPE includes itself (the guard of f76fc3ec8 is
+	// shared by tables built on demand in the middle of another one)
+	if o.Err != "" && !accepted2(o) && !hasFieldSetCycle(texts) {
+		only := true
+		for _, l := range strings.Split(strings.TrimSpace(o.Err), "\n") {
+			only = only && strings.HasSuffix(l, "circular reference in field sets")
+		}
+		if only {
+			tags = append(tags, "C16-F5b:false-field-set-cycle")
+		}
+	}
+	if !o.Deterministic && strings.Contains(o.NonDet, " vs ") && !hasFieldSetCycle(texts) && sourceHasRe(texts, fieldSetRe) {
+		tags = append(tags, "C16-F5b:false-field-set-cycle")
 	}
 	if !o.Deterministic {
 		if o.RuleOrder {
@@ -140,7 +173,12 @@ func runText(texts []c17.PkgText, kind string, out *kit.Out, store bool) {
 		desc["texts"] = texts
 	}
 	stream := "stream:" + strings.SplitN(kind, ":", 2)[0]
-	out.Emit(kit.Case{Coq: "(TText " + cObs(o) + ")", Key: kind + " " + o.Stage, Nontrivial: o.Stage != "parse", Desc: desc,
+	// a crafted program built to be well-formed (no token edit on top): it must compile and build
+	tr := "TText"
+	if (strings.Contains(kind, "shape:ok-") || strings.Contains(kind, "container-right-family")) && !strings.Contains(kind, "+") {
+		tr = "TTextOk"
+	}
+	out.Emit(kit.Case{Coq: "(" + tr + " " + cObs(o) + ")", Key: kind + " " + o.Stage, Nontrivial: o.Stage != "parse", Desc: desc,
 		Tags: append(obsTags(o, texts), stream, "observed-only")})
 }
 
@@ -148,7 +186,20 @@ func genText(name string) []c17.PkgText {
 	if f := strings.Split(name, ":"); len(f) == 4 && f[0] == "container" { // container:<doc>:<rec>:<placement>
 		return containerProgram(f[1], f[2], f[3])
 	}
+	if strings.HasPrefix(name, "deep-expression:") { // deep-expression:<levels of parentheses>
+		if k, err := strconv.Atoi(name[16:]); err == nil {
+			return withSys([]c17.PkgText{{Path: "github.com/verif/app1", Files: []string{
+				"APPLICATION app1(); WORKSPACE W ( TABLE T INHERITS sys.CDoc (a int32 CHECK (" + strings.Repeat("(", k) + "a" + strings.Repeat(")", k) + " > 0)); );"}}})
+		}
+		return nil
+	}
+	if strings.HasPrefix(name, "syscycle:") {
+		return sysCycle(name[9:])
+	}
 	if strings.HasPrefix(name, "shape:") { // shape:<name of a crafted program>
+		if m, ok := multiShapes[name[6:]]; ok {
+			return withSys(m)
+		}
 		for _, sh := range shapeCatalogue {
 			if sh[0] == name[6:] {
 				return withSys([]c17.PkgText{{Path: "github.com/verif/app1", Files: []string{sh[1]}}})
@@ -181,7 +232,7 @@ func runCaseFile(c caseFile, prefix string, out *kit.Out) error {
 		if t == nil {
 			return fmt.Errorf("unknown generator %q", c.Gen)
 		}
-		runText(t, prefix+c.Kind, out, !strings.HasPrefix(c.Gen, "big-")) // the big ones are not stored in the evidence
+		runText(t, prefix+c.Kind, out, !strings.HasPrefix(c.Gen, "big-") && !strings.HasPrefix(c.Gen, "deep-")) // the big ones are not stored in the evidence
 	default:
 		return fmt.Errorf("empty case")
 	}
@@ -389,4 +440,46 @@ func gcd(a, b int) int {
 		a, b = b, a%b
 	}
 	return a
+}
+
+func accepted2(o TextObs) bool { return o.Accepted }
+
+func sourceHas(texts []c17.PkgText, sub string) bool {
+	for _, p := range texts[1:] {
+		for _, f := range p.Files {
+			if strings.Contains(f, sub) {
+				return true
+			}
+		}
+	}
+	return false
+}
+
+var importAliasRe = regexp.MustCompile(`IMPORT\s+SCHEMA\s+'[^']*'\s+AS\s+\w+`)
+var fieldSetRe = regexp.MustCompile(`\bTYPE\s+\w+`)
+
+func sourceHasRe(texts []c17.PkgText, re *regexp.Regexp) bool {
+	for _, p := range texts[1:] {
+		for _, f := range p.Files {
+			if re.MatchString(f) {
+				return true
+			}
+		}
+	}
+	return false
+}
+
+// the refusals of C16-F19: `invalid application definition: ` + one of these
+var refusals2 = []string{"maximum field length value is zero", "already exists: field", "not found: field", "runtime error: invalid memory address or nil pointer dereference"}
+
+func unpositionedRefusal(line string) bool {
+	if !strings.HasPrefix(line, "invalid application definition: ") {
+		return false
+	}
+	for _, r := range refusals2 {
+		if strings.Contains(line, r) {
+			return true
+		}
+	}
+	return false
 }
